@@ -128,3 +128,44 @@ func runBuilderFresh(p *core.Program, r *core.Report) {
 		r.Bad(rule, construct, p.InsPos(bad), "the returned text shares the builder's backing array (append onto tb.segs): the next write to the builder, or its reuse after Reset, overwrites segments of a text already handed out")
 	}
 }
+
+// uniqueCallerRoot: an unexported plain function that is called at exactly one
+// place of its package and never used as a value is an extracted piece of its
+// caller; rules that key their audit tables by function use the caller's name
+// for it, so that extracting a helper does not orphan an audit entry.
+func uniqueCallerRoot(p *core.Program, fn *ssa.Function, depth int) *ssa.Function {
+	fn = core.Outer(fn)
+	if depth > 3 || fn.Pkg == nil || fn.Signature.Recv() != nil {
+		return fn
+	}
+	if obj := fn.Object(); obj == nil || obj.Exported() {
+		return fn
+	}
+	var caller *ssa.Function
+	n, asValue := 0, false
+	for _, g := range p.FnsInPkg(fn.Pkg.Pkg.Path()) {
+		core.Instrs(g, func(ins ssa.Instruction) {
+			isCall := false
+			if c, ok := ins.(ssa.CallInstruction); ok && c.Common().StaticCallee() == fn {
+				isCall = true
+				if _, isGo := ins.(*ssa.Go); isGo {
+					asValue = true
+				}
+				n++
+				caller = core.Outer(g)
+			}
+			for _, op := range ins.Operands(nil) {
+				if *op == nil {
+					continue
+				}
+				if f, ok := (*op).(*ssa.Function); ok && f == fn && !isCall {
+					asValue = true
+				}
+			}
+		})
+	}
+	if n != 1 || asValue || caller == nil || caller == fn {
+		return fn
+	}
+	return uniqueCallerRoot(p, caller, depth+1)
+}
